@@ -7,6 +7,7 @@ import CachedModel.State
 import CachedModel.Ack
 import CachedModel.Locks
 import CachedModel.LayerB
+import CachedModel.Glue
 
 namespace Cached
 
@@ -267,6 +268,81 @@ def runLfuOps (t : TinyLFU) : List String → List Nat → Except String (TinyLF
         | none => .error "bad")
     | _ => .error "bad"
 
+-- ---------- Layer G: construction glue (`P glue.*` lines) ----------
+
+def Glue.parseSetter? (t : String) : Option Glue.Setter :=
+  match t.splitOn ":" with
+  | ["pool", n] => n.toNat?.map .pool
+  | ["buf", n] => n.toNat?.map .buf
+  | ["cmd", n] => n.toNat?.map .cmd
+  | ["shards", n] => n.toNat?.map .shards
+  | ["tick", n] => n.toNat?.map .tick
+  | ["other", _] => some .other
+  | _ => none
+
+def Glue.Builder.str (b : Glue.Builder) : String :=
+  s!"cfg counters={b.counters} capacity={b.capacity} weight={b.cacheWeight} pool={b.pool} buf={b.buf} cmd={b.cmd} shards={b.shards} tick={b.tickNs}"
+
+def Glue.parseBuilder? (toks : List String) : Option Glue.Builder :=
+  toks.foldlM (fun (b : Glue.Builder) t =>
+    let (k, v) := kvOf t
+    match k with
+    | "counters" => v.toNat?.map (fun x => { b with counters := x })
+    | "capacity" => v.toNat?.map (fun x => { b with capacity := x })
+    | "weight" => (parseInt? v).map (fun x => { b with cacheWeight := x })
+    | "pool" => v.toNat?.map (fun x => { b with pool := x })
+    | "buf" => v.toNat?.map (fun x => { b with buf := x })
+    | "cmd" => v.toNat?.map (fun x => { b with cmd := x })
+    | "shards" => v.toNat?.map (fun x => { b with shards := x })
+    | "tick" => v.toNat?.map (fun x => { b with tickNs := x })
+    | _ => none) default
+
+def Glue.parseUCall? (t : String) : Option Glue.UCall :=
+  match t.splitOn ":" with
+  | ["value"] => some .value
+  | ["rm"] => some .rm
+  | ["weight", w] => (parseInt? w).map .weight
+  | ["ttl", n] => n.toNat?.map .ttl
+  | _ => none
+
+def optIntStr : Option Int → String
+  | some w => toString w
+  | none => "-"
+
+def driveGlue (toks : List String) : String :=
+  match toks with
+  | "glue.builder" :: counters :: capacity :: weight :: "|" :: chain =>
+    (match counters.toNat?, capacity.toNat?, parseInt? weight, (chain.filter (· ≠ "")).mapM Glue.parseSetter? with
+     | some c, some cap, some w, some setters =>
+       (match (Glue.Builder.new c cap w).bind (fun b => b.run setters) with
+        | some b => "R " ++ b.str
+        | none => "R panic")
+     | _, _, _, _ => "R bad-pure-line")
+  | "glue.new" :: fields =>
+    (match Glue.parseBuilder? fields with
+     | some b =>
+       (match Glue.cachedNew b [0, 0, 0, 0] with
+        | some sh => s!"R shape cmd={sh.cmdCap} ttl={sh.ttlShards} pool={sh.poolBuffers} buf={sh.bufCap} rows={sh.rows} rowbytes={sh.rowBytes} reset={sh.resetAt} max={sh.maxWeight} used=0 store=0 kw=0"
+        | none => "R panic")
+     | none => "R bad-pure-line")
+  | "glue.upsert" :: wbase :: wmod :: ttlentry :: v :: "|" :: calls =>
+    (match parseInt? (kvOf wbase).2, (kvOf wmod).2.toNat?, parseInt? (kvOf ttlentry).2, (kvOf v).2.toNat?,
+           (calls.filter (· ≠ "")).mapM Glue.parseUCall? with
+     | some wb, some wm, some te, some value, some cs =>
+       let cfg : Cfg := { maxWeight := 0, shards := 2, cmdCap := 1, poolSize := 1, bufSize := 1, counters := 2, wBase := wb, wMod := wm, ttlEntry := te }
+       (match ((({} : Glue.UReq).calls cs).bind Glue.UReq.build) with
+        | some r =>
+          let ttl := match r.ttl with | some n => toString n | none => "-"
+          s!"R req value={if r.hasValue then 1 else 0} weight={optIntStr r.weight} ttl={ttl} rm={if r.rm then 1 else 0} uw={optIntStr (r.updatedWeight cfg value)}"
+        | none => "R panic")
+     | _, _, _, _, _ => "R bad-pure-line")
+  | ["glue.weight", ks, vs, wks, te, ttl] =>
+    (match ks.toNat?, vs.toNat?, wks.toNat?, te.toNat? with
+     | some a, some b, some c, some d => s!"R weight {Glue.defaultWeight a b c d (ttl == "1")}"
+     | _, _, _, _ => "R bad-pure-line")
+  | ["glue.hash"] => "R hash stable=1 distinct=1"
+  | _ => "R bad-pure-line"
+
 def drivePure (toks : List String) : String :=
   match toks with
   | ["row.inc", hx, pos] =>
@@ -294,6 +370,11 @@ def drivePure (toks : List String) : String :=
      | some a, some b => "R expiry " ++ (typeOfExpiryUpdate a b).str
      | _, _ => "R bad-pure-line")
   | ["ratio", _, _] => "R ratio ok"
+  | "glue.builder" :: _ => driveGlue toks
+  | "glue.new" :: _ => driveGlue toks
+  | "glue.upsert" :: _ => driveGlue toks
+  | "glue.weight" :: _ => driveGlue toks
+  | "glue.hash" :: _ => driveGlue toks
   | "fc" :: counters :: seeds :: "|" :: ops =>
     (match counters.toNat?, parseNatList? seeds with
      | some c, some sd =>
